@@ -24,7 +24,7 @@ from deep.api.plugin import TracepointLogger
 from deep.api.tracepoint import Variable
 from deep.api.tracepoint.trigger import LocationAction
 from deep.config import ConfigService
-from deep.processor.context.action_context import NoActionContext, ActionContext
+from deep.processor.context.action_context import NoActionContext, ActionContext, FailedExpression
 from deep.processor.context.action_results import ActionResult, ActionCallback
 from deep.processor.context.log_action import LogActionContext
 from deep.processor.context.metric_action import MetricActionContext
@@ -172,7 +172,7 @@ class TriggerContext:
         Evaluate an expression to a value.
 
         :param expression: the expression
-        :return: the result of the expression, or the exception that was raised.
+        :return: the result of the expression, or a FailedExpression with the exception that was raised.
         """
         try:
             return self.evaluate(expression)
@@ -180,7 +180,7 @@ class TriggerContext:
             # without its traceback: the traceback refers to our frames, which lead back (f_back) to the frame of the
             # caller that stores this result - a reference cycle that keeps the whole stack, the application's frames
             # and variables included, alive until the garbage collector runs
-            return e.with_traceback(None)
+            return FailedExpression(e.with_traceback(None))
 
     def attach_result(self, result: ActionResult):
         """
